@@ -17,7 +17,7 @@ from ..tables import if_chain
 EXPLANATION = (
     "C14.1 tag constants are pairwise distinct single bytes, none a digit; _TYPES_STR is exactly the ten digit bytes; C14.2 every encoder writes "
     "its tag first and (containers, ints) _TYPE_END last; _encode_int writes str(integer); _encode_buffer converts str to bytes before computing "
-    "the length and writes length, separator, payload in this order; C14.3 the dispatch tests int-and-not-bool, (str, bytes), Mapping, Iterable "
+    "the length and writes length, separator, payload in this order; C14.3 the dispatch tests int-and-not-bool, (str, bytes), Mapping, concrete (list, tuple) "
     "in this order and raises TypeError otherwise; C14.4 mappings are emitted as sorted(mapping.items()) with keys through _encode_buffer; "
     "C14.5 the decoder table keys equal the encoder tags plus digits plus END, each decoder asserts its tag, and hash_struct feeds its argument "
     "to bencode unchanged."
@@ -77,9 +77,26 @@ def run(ctx):
     dp = bf.args.args[0].arg
     arms = if_chain(bf)
     tests = [src(t) if t is not None else None for t, _ in arms]
-    want = [f"isinstance({dp}, int) and (not isinstance({dp}, bool))", f"isinstance({dp}, (str, bytes))", f"isinstance({dp}, Mapping)", f"isinstance({dp}, Iterable)", None]
+    want = [f"isinstance({dp}, int) and (not isinstance({dp}, bool))", f"isinstance({dp}, (str, bytes))", f"isinstance({dp}, Mapping)", "<sequence>", None]
     norm = [t.replace("not isinstance", "(not isinstance").replace("bool)", "bool))") if t and "(not" not in t and "not isinstance" in t else t for t in tests]
-    r3.check(norm == want, f"{m.rel}:_bencode_to_file:order", f"dispatch tests are {tests}, expected int-and-not-bool, (str, bytes), Mapping, Iterable, else", m.rel, bf.lineno)
+    # the sequence arm: only concrete ordered sequence types.  An abstract test (Iterable, Sequence, Collection) also admits sets, generators,
+    # bytearrays, ranges and dict views, which would be encoded like the list of their items (for a set: in an order that varies between processes)
+    seq_ok = False
+    if len(arms) >= 4 and arms[3][0] is not None:
+        t3 = arms[3][0]
+        if isinstance(t3, ast.Call) and call_name(t3) == "isinstance" and len(t3.args) == 2 and src(t3.args[0]) == dp:
+            tys = [src(e) for e in t3.args[1].elts] if isinstance(t3.args[1], ast.Tuple) else [src(t3.args[1])]
+            seq_ok = bool(tys) and set(tys) <= {"list", "tuple"}
+            r3.check(
+                seq_ok,
+                f"{m.rel}:_bencode_to_file:sequence-arm",
+                f"the list arm accepts `{src(t3.args[1])}`: values that are not lists/tuples (sets, generators, bytearray, range, dict views) are encoded like the list of their items instead of being "
+                "rejected, so bencode(bytearray(b'ab')) == bencode([97, 98]) and a set is encoded in iteration order",
+                m.rel,
+                t3.lineno,
+            )
+        norm[3] = "<sequence>"
+    r3.check(norm == want, f"{m.rel}:_bencode_to_file:order", f"dispatch tests are {tests}, expected int-and-not-bool, (str, bytes), Mapping, (list, tuple), else", m.rel, bf.lineno)
     callees = [[call_name(c) for b in body for c in calls_in(b)] for _, body in arms]
     exp = ["_encode_int", "_encode_buffer", "_encode_mapping", "_encode_iterable"]
     for i, e in enumerate(exp):
